@@ -70,6 +70,8 @@ class FakeSnow:
         self.duck_conn = duckdb.connect(database=":memory:")
         # a connection bootstraps its database and schema with check-then-create steps, so only one at a time
         self._connect_lock = threading.Lock()
+        # statements carried out in several steps run in a transaction of their own, one at a time
+        self._multi_step_lock = threading.Lock()
 
         # create a "global" database for storing objects which span databases.
         self.duck_conn.execute(f"ATTACH IF NOT EXISTS ':memory:' AS {GLOBAL_DATABASE_NAME}")
@@ -92,5 +94,6 @@ class FakeSnow:
                 create_schema=self.create_schema_on_connect,
                 db_path=self.db_path,
                 nop_regexes=self.nop_regexes,
+                multi_step_lock=self._multi_step_lock,
                 **kwargs,
             )
